@@ -213,5 +213,5 @@ fn ob_c13_walk_canary(v: u8) {
     vassume!(v <= 2);
     let mut filter = MockFeed::new(0, 0).filter_entry(|_| entry_verdict(v));
     let _ = filter.feed();
-    assert!(filter.input.cancels == 0, "canary");
+    assert!(v != 1, "canary");
 }
